@@ -43,14 +43,14 @@ class ToolError(Exception):
 
 
 def jobs():
-    """Parallel coqc workers: all 16 cores when the machine is idle, fewer under load."""
+    """Worker threads; the number of coqc actually running is capped machine-wide by Slot."""
     if os.environ.get("VERIF_JOBS"):
         return max(1, int(os.environ["VERIF_JOBS"]))
     try:
         load = os.getloadavg()[0]
     except OSError:
         load = 0
-    return max(3, min(16, int(17 - load)))
+    return 16
 
 
 def log(*a):
@@ -114,14 +114,17 @@ def strip_comments(src):
     return "".join(out)
 
 
-def forbidden_scan():
-    """Gate over every .v file of the development (not only this cone)."""
+def forbidden_scan(only=None):
+    """Gate over the .v files of the property's dependency cone (`only` = paths
+    relative to coq/), or over every .v file of the development when None."""
     hits = []
     for root, _, files in os.walk(os.path.join(COQ, "theories")):
         for f in sorted(files):
             if not f.endswith(".v"):
                 continue
             path = os.path.join(root, f)
+            if only is not None and os.path.relpath(path, COQ) not in only:
+                continue
             src = strip_comments(open(path).read())
             for pat in FORBIDDEN:
                 for m in re.finditer(pat, src):
@@ -170,6 +173,43 @@ def coq_deps():
     return deps
 
 
+def cone_of(targets):
+    deps = coq_deps()
+    want = [t[:-1] if t.endswith(".vo") else t for t in targets]
+    cone, stack = set(), list(want)
+    while stack:
+        v = stack.pop()
+        if v in cone or v not in deps:
+            continue
+        cone.add(v)
+        stack += deps[v]
+    return cone
+
+
+class Slot:
+    """Machine-wide cap on concurrent coqc processes started by checks (16 slots)."""
+    N = 16
+
+    def __enter__(self):
+        d = os.path.join(CACHE, "slots")
+        os.makedirs(d, exist_ok=True)
+        start = os.getpid()
+        while True:
+            for k in range(self.N):
+                f = open(os.path.join(d, "slot-%d" % ((start + k) % self.N)), "w")
+                try:
+                    fcntl.flock(f, fcntl.LOCK_EX | fcntl.LOCK_NB)
+                    self.f = f
+                    return self
+                except OSError:
+                    f.close()
+            time.sleep(0.2)
+
+    def __exit__(self, *a):
+        fcntl.flock(self.f, fcntl.LOCK_UN)
+        self.f.close()
+
+
 def _compile_one(v, deps, timeout):
     """Compile v (deps already up to date) unless its .vo is fresh. Per-file lock."""
     vo = os.path.join(COQ, v + "o")
@@ -192,9 +232,10 @@ def _compile_one(v, deps, timeout):
     with Lock("vo-" + v.replace("/", "_")):
         if fresh():
             return 0, ""
-        rc, out = sh(["coqc", "-noglob", "-Q", "theories", "PV", "-w",
-                      "-notation-overridden,-deprecated-hint-without-locality,-deprecated-instance-without-locality",
-                      v], cwd=COQ, timeout=timeout)
+        with Slot():
+            rc, out = sh(["coqc", "-noglob", "-Q", "theories", "PV", "-w",
+                          "-notation-overridden,-deprecated-hint-without-locality,-deprecated-instance-without-locality",
+                          v], cwd=COQ, timeout=timeout)
         if rc != 0 and os.path.exists(vo):
             os.remove(vo)
         return rc, "COQC %s\n%s" % (v, out)
@@ -317,12 +358,18 @@ def harness_dir(repo):
     return d, tgt
 
 
-def cargo_build(repo, bins, profile="dev", timeout=3000):
+def features_of(cfg):
+    """Cargo features (= pallas crates) a property's harness binary needs."""
+    return cfg.get("features") or ["all"]
+
+
+def cargo_build(repo, bins, profile="dev", timeout=3000, features=("all",)):
     d, tgt = harness_dir(repo)
     env = dict(CARGO_ENV)
     env["CARGO_TARGET_DIR"] = tgt
+    env.setdefault("CARGO_BUILD_JOBS", os.environ.get("CARGO_BUILD_JOBS", "8"))
     env["RUSTFLAGS"] = (os.environ.get("RUSTFLAGS", "") + " --cfg pallas_verif -Awarnings").strip()
-    cmd = ["cargo", "build", "--offline", "-q"]
+    cmd = ["cargo", "build", "--offline", "-q", "--features", ",".join(features)]
     if profile == "release":
         cmd.append("--release")
     for b in bins:
@@ -385,7 +432,8 @@ def eval_cases(cfg, cases, workdir, shard, timeout):
             f.write(";\n".join(t for _, t in shards[k]))
             f.write("\n].\n")
             f.write("Eval vm_compute in (bad_indices case_ok cases).\n")
-        rc, out = sh(["coqc", "-noglob", "-Q", os.path.join(COQ, "theories"), "PV", path], timeout=timeout)
+        with Slot():
+            rc, out = sh(["coqc", "-noglob", "-Q", os.path.join(COQ, "theories"), "PV", path], timeout=timeout)
         if rc != 0:
             return k, None, out
         m = re.search(r"=\s*(\[.*?\]|nil)\s*(%\w+)?\s*:\s*list N", out, flags=re.S)
@@ -477,10 +525,13 @@ def main():
             if rc != 0:
                 broken.append("translator %s rejects the current source: %s" % (t, out.strip()[-600:]))
         # 2. Coq
-        hits = forbidden_scan()
-        if hits:
-            raise ToolError("forbidden constructs in the development:\n" + "\n".join(hits))
         targets = ["theories/%s/Props.vo" % cfg["coq_dir"], "theories/%s/Run.vo" % cfg["coq_dir"]]
+        hits = forbidden_scan(cone_of(targets))
+        if hits:
+            raise ToolError("forbidden constructs in the cone of this property:\n" + "\n".join(hits))
+        other = forbidden_scan()
+        if other:
+            notes.append("forbidden constructs elsewhere in the development (outside this cone): " + "; ".join(other[:10]))
         rc, out = coq_build(targets, clean=(tier == "thorough" and cfg.get("thorough_clean", False)))
         props_ok = rc == 0
         if rc != 0:
@@ -522,7 +573,7 @@ def main():
         harness_ok = True
         profiles = tcfg.get("profiles", ["dev"])
         for prof in profiles:
-            rc, out, bindir = cargo_build(a.repo, [cfg["bin"]], profile=prof)
+            rc, out, bindir = cargo_build(a.repo, [cfg["bin"]], profile=prof, features=features_of(cfg))
             if rc != 0:
                 if re.search(r"(failed to (load|read|parse|select|get)|no matching package|could not find `Cargo.toml`|error: no bin target)", out) and "error[E" not in out:
                     raise ToolError("cargo could not build the harness:\n" + out[-3000:])
@@ -556,7 +607,7 @@ def main():
                 violations.append((key, what))
         # 6. broken tie with no oracle failure: search for a failing input
         if broken and not violations and harness_ok and cfg.get("search", True):
-            rc, out, bindir = cargo_build(a.repo, [cfg["bin"]])
+            rc, out, bindir = cargo_build(a.repo, [cfg["bin"]], features=features_of(cfg))
             if rc == 0:
                 sn = cfg.get("search_n", max(n * 10, 20000))
                 for sseed in (a.seed, a.seed + 1):
